@@ -14,7 +14,8 @@
    vacancies), every node type, every output node and every prior processor state. *)
 Require Import List Arith Relations.
 From Dasp Require Import Base.Res Graph.Dfs Graph.Process Graph.ProcessSpec Graph.DfsProofs
-  Graph.ProcessProofs Graph.EvalProofs Graph.ExtraProofs Graph.FuelBound Graph.GraphExamples.
+  Graph.ProcessProofs Graph.EvalProofs Graph.ExtraProofs Graph.FuelBound Graph.ProcessPanic
+  Graph.ProcessPanicProofs Graph.GraphExamples.
 Import ListNotations.
 
 (* the call returns: no panic, no fuel exhaustion of the modelled loops *)
@@ -104,6 +105,35 @@ Theorem c09_reuse : forall (W B : Type) (bufs : W -> B) (nproc : W -> list B -> 
   outcome (process bufs nproc p1 g out) = outcome (process bufs nproc p2 g out).
 Proof. exact @process_reuse. Qed.
 Print Assumptions c09_reuse.
+
+(* Node panics (Graph/ProcessPanic.v: the same loops with the `inputs` vector as processor state,
+   cleared before each node's collection, and nodes that may panic inside Node::process, the
+   unwinding being caught by the host).  When no node panics this is the model above ... *)
+Theorem c09_panic_model_agrees : forall (W B : Type) (bufs : W -> B) (nproc : W -> list B -> W)
+  (nfail : W -> list B -> option W), (forall w i, nfail w i = None) ->
+  forall (p : fprocessor) (g : graph W) (out : nat),
+  rmap forget_inputs (process_f bufs nproc nfail p g out) =
+  rmap (fun x => (fst (fst x), snd (fst x), snd x, Done)) (process bufs nproc (base p) g out).
+Proof. exact @process_f_no_fail. Qed.
+Print Assumptions c09_panic_model_agrees.
+
+(* ... and in general: whatever the processor went through before -- completed calls, calls
+   aborted by a node panic at any point, i.e. ANY traversal state, ANY content of the inputs
+   vector, any bit-set length -- the next call yields the same graph, the same invocations with
+   the same inputs, and ends the same way (returns / aborted at the same node) as on a new one *)
+Theorem c09_reuse_after_node_panic : forall (W B : Type) (bufs : W -> B) (nproc : W -> list B -> W)
+  (nfail : W -> list B -> option W) (p1 p2 : fprocessor) (g : graph W) (out : nat),
+  wf g -> live g out = true ->
+  foutcome (process_f bufs nproc nfail p1 g out) = foutcome (process_f bufs nproc nfail p2 g out).
+Proof. exact @process_f_reuse. Qed.
+Print Assumptions c09_reuse_after_node_panic.
+
+(* a call, aborted or not, keeps the edges and the set of nodes (so [wf] is kept) *)
+Theorem c09_panic_keeps_shape : forall (W B : Type) (bufs : W -> B) (nproc : W -> list B -> W)
+  (nfail : W -> list B -> option W) (p : fprocessor) (g : graph W) (out : nat) p' g' log r,
+  process_f bufs nproc nfail p g out = Ok (p', g', log, r) -> same_shape g g'.
+Proof. exact @process_f_shape. Qed.
+Print Assumptions c09_panic_keeps_shape.
 
 (* "Panics if there is no node for the given index": whatever the processor state *)
 Theorem c09_no_node_panics : forall (W B : Type) (bufs : W -> B) (nproc : W -> list B -> W)
